@@ -30,25 +30,34 @@ class _Return(Exception):
 
 
 class Facts:
-    """Set of boolean terms known to hold (must-facts)."""
+    """Set of boolean terms known to hold (must-facts).  Kept in insertion order (a dict), so that everything that walks
+    the facts does so in an order that depends on the analysed source only - never on the interpreter's hash seed."""
     __slots__ = ('items',)
 
     def __init__(self, items=()):
-        self.items = frozenset(items)
+        self.items = dict.fromkeys(items)
 
     def add(self, t):
         if t == T.TRUE:
             return self
-        new = set(self.items)
+        new = dict(self.items)
         for x in _split_and(t):
-            new.add(x)
-        return Facts(new)
+            new[x] = None
+        f = Facts()
+        f.items = new
+        return f
 
     def meet(self, other):
-        return Facts(self.items & other.items)
+        f = Facts()
+        f.items = {k: None for k in self.items if k in other.items}
+        return f
 
     def union(self, other):
-        return Facts(self.items | other.items)
+        f = Facts()
+        f.items = dict(self.items)
+        for k in other.items:
+            f.items[k] = None
+        return f
 
     def __contains__(self, t):
         return t in self.items
